@@ -222,3 +222,36 @@ impl Engine for GcEngine {
         self.run_calls(cfg, &calls)
     }
 }
+
+// ----------------------------------------------------------- byte-level (libFuzzer) layer
+
+/// Decode a fuzzer input into a history seed (plain fixed layout; every byte string decodes).
+pub fn decode(b: &[u8]) -> HistSeed {
+    let g = |i: usize| b.get(i).copied().unwrap_or(0);
+    let g16 = |i: usize| u16::from(g(i)) | (u16::from(g(i + 1)) << 8);
+    let mut hs = HistSeed { n_sel: g(0), cap_sel: g(1), profile_sel: g(2), order_sel: g16(3), ops: vec![] };
+    let mut p = 5;
+    while p + 9 <= b.len() && hs.ops.len() < 80 {
+        hs.ops.push((g(p), g16(p + 1), g16(p + 3), g16(p + 5), g16(p + 7)));
+        p += 9;
+    }
+    hs
+}
+
+pub fn encode(hs: &HistSeed) -> Vec<u8> {
+    let mut b = vec![hs.n_sel, hs.cap_sel, hs.profile_sel];
+    b.extend_from_slice(&hs.order_sel.to_le_bytes());
+    for (k, a, x, y, z) in &hs.ops {
+        b.push(*k);
+        for v in [a, x, y, z] {
+            b.extend_from_slice(&v.to_le_bytes());
+        }
+    }
+    b
+}
+
+/// One libFuzzer iteration of the gcmodel engine for property `prop` (C01..C05): a fresh
+/// graph and model per input; the semantic oracle of that property decides.
+pub fn fuzz_one(prop: &'static str, data: &[u8]) -> Option<Failure> {
+    GcEngine::for_prop(prop).run(&decode(data)).failure
+}
